@@ -164,6 +164,7 @@ theorem decryptParsed_ok (d x1 y1 x2 y2 : Nat) (msg : Bytes) (hx : x1 < p) (hy :
       (kdf (b32 x2 ++ b32 y2) msg.length) = msg :=
     xorBytes_cancel _ _ (by rw [Props.C02.kdf_length])
   unfold decryptParsed
+  simp only [hx, hy, decide_true, Bool.and_self, Bool.not_true, Bool.false_eq_true, if_false]
   rw [Nat.mod_eq_of_lt hx, Nat.mod_eq_of_lt hy, hc, hsh]
   simp only [Bool.not_true, Bool.false_eq_true, if_false, hlen, hz, hcancel, if_true]
 
@@ -239,6 +240,17 @@ theorem onCurve_enc_smul_G {k : Nat} (h0 : 0 < k) (hk : k < n) :
     rw [hh] at hv
     exact hv.2.2
 
+/-- … and are field elements -/
+theorem enc_smul_G_lt {k : Nat} (h0 : 0 < k) (hk : k < n) :
+    (enc (smul k G)).1 < p ∧ (enc (smul k G)).2 < p := by
+  have hv : Valid (smul k G) := smul_valid valid_G (lt_of_lt_n hk)
+  cases hh : smul k G with
+  | none => exact absurd hh (smul_G_ne_none h0 hk)
+  | some xy =>
+    obtain ⟨x, y⟩ := xy
+    rw [hh] at hv
+    exact ⟨hv.1, hv.2.1⟩
+
 theorem xbar_lt (x : Nat) : xbar x < 2 ^ 600 :=
   Nat.lt_trans (Props.C13.xbar_range x).2 (Nat.pow_lt_pow_right (by decide) (by decide))
 
@@ -267,6 +279,7 @@ theorem kex_agree (klen : Nat) (ida idb : Bytes) (dA rA dB rB : Nat)
         (enc (smul dA G)) (enc (smul dB G)) (enc (smul rA G)) (enc (smul rB G)) := by
   apply Props.C13.outputs_from_V klen ida idb dA rA dB rB _ _ _ _
     (onCurve_enc_smul_G hrA.1 hrA.2) (onCurve_enc_smul_G hrB.1 hrB.2)
+    (enc_smul_G_lt hrA.1 hrA.2) (enc_smul_G_lt hrB.1 hrB.2)
   have hdA' := lt_of_lt_n hdA
   have hdB' := lt_of_lt_n hdB
   have hrA' := lt_of_lt_n hrA.2
